@@ -428,6 +428,26 @@ def k8(F, R):
             else:
                 R.bad("C17-K8", k2, site, "finiteness test is not per element: %d is_finite calls, %d of them on a closure element, reductions %s "
                       "(finite values whose sum overflows would be reported non-finite)" % (len(fin), len(in_closure), reductions))
+        # sums of logarithms: ln is taken of each element, never of a product of elements (which leaves the f64 range long before the sum does)
+        if b.fn_name and b.fn_name.endswith("_ln") and sa.startswith("math::cpu_math::CpuMath"):
+            lns = [x for x in hir_walk(b.hir["value"]) if x.get("k") == "MethodCall" and x["method"] == "ln"]
+            per_elem = 0
+            for c in [x for x in hir_walk(b.hir["value"]) if x.get("k") == "Closure"]:
+                pids = set()
+                for p_ in c.get("params", []):
+                    for q in hir_walk(p_):
+                        if q.get("k") == "Binding":
+                            pids.add(q["id"])
+                for y in hir_walk(c["body"]):
+                    if y.get("k") == "MethodCall" and y["method"] == "ln" and K.local_id(y["recv"]) in pids:
+                        per_elem += 1
+            prods = [x["method"] for x in hir_walk(b.hir["value"]) if x.get("k") == "MethodCall" and x["method"] in ("product", "fold", "reduce")]
+            k3 = "%s:per-element-ln" % b.path
+            if lns and per_elem == len(lns) and not prods:
+                R.ok("C17-K8", k3, site, "ln applied to each element")
+            else:
+                R.bad("C17-K8", k3, site, "logarithm is not taken per element: %d ln calls, %d of them on a closure element, reductions %s "
+                      "(a product of finite positive scales overflows or underflows although the sum of their logarithms is finite)" % (len(lns), per_elem, prods))
     R.floor("C17-K8", 40)
 
 
